@@ -126,6 +126,9 @@ func verifC11AddElem[T any](ts *[]*verifC11Target, l3 bool, name string, a, b, c
 	verifC11Add(ts, false, l3, "*"+name, func() *T { x := a; return &x })
 	verifC11Add(ts, false, l3, "[]"+name, func() []T { return []T{a, b, c} })
 	verifC11Add(ts, false, l3, "[3]"+name, func() [3]T { return [3]T{a, b, c} })
+	// a slice with spare capacity (as left behind by an earlier merge that trimmed trailing tombstones): growth within
+	// the capacity takes a different branch of SetValue than growth by reallocation
+	verifC11Add(ts, false, l3, "[]"+name+" (len 1, cap 8)", func() []T { s := make([]T, 1, 8); s[0] = a; return s })
 	verifC11Add(ts, false, l3, "map[string]"+name, func() map[string]T { return map[string]T{"0": a, "abc": b} })
 }
 
